@@ -636,6 +636,11 @@ def c03_12(ctx):
         ctx.check(ok, "nop-without-flag:%s" % fn.name, ctx.where(fn), "%s is not a NOP when its flag is unset" % fn.name)
 
 
+def c03_13(ctx):
+    from rules.C06 import cache_scope
+    cache_scope(ctx)
+
+
 OBLIGATIONS = [
     Ob("C03.1", "all 256 opcode values: dispatch-table binding vs consensus class, outside_conditional bit, arithmetic lambdas", c03_1, floor=256, engines="REG,CE",
        breaks_if="any script containing that opcode (also inside unexecuted branches)", exhaustive=True),
@@ -647,5 +652,7 @@ OBLIGATIONS = [
     Ob("C03.8", "flag plumbing across scriptSig / scriptPubKey / P2SH / witness stages", c03_8, floor=20, engines="DF,GI"),
     Ob("C03.9", "LOW_S compares with the group order", c03_9, floor=2, engines="MK", breaks_if="s in (n/2, p/2]"),
     Ob("C03.10", "conditional stack guards, MINIMALIF, pop only when executing", c03_10, floor=8, engines="GI"),
+    Ob("C03.13", "sighash cache of CHECKSIG/CHECKMULTISIG is call-local (shared with C06.2)", c03_13, floor=7, engines="EF,DF",
+       breaks_if="two CHECKSIGs sharing a hash type where the second signature appears in the script (FindAndDelete)"),
     Ob("C03.12", "CLTV / CSV comparison rules (masked values, eras, preconditions)", c03_12, floor=9, engines="DF,GI", breaks_if="nSequence with unused upper bits set"),
 ]
